@@ -751,4 +751,69 @@ theorem polarity_flip_is_rejected :
     (substS 0 (.svar 1) (.imp (.svar 0) (.sym 0))).pos 1 = false := by decide
 
 
+/-! ## substitutions for different variables commute -/
+
+/-- substitutions for two different variables commute when neither plug mentions the other variable (the syntactic
+substitution lemma, special case used by the proof rules that substitute twice) -/
+theorem substE_comm (x y : VId) (hxy : x ≠ y) (a b : Pat) (hac : concrete a = true) (hbc : concrete b = true)
+    (ha : a.eFresh y = true) (hb : b.eFresh x = true) :
+    ∀ p : Pat, substE x a (substE y b p) = substE y b (substE x a p) := by
+  intro p; induction p with
+  | evar z =>
+    by_cases hzx : z = x
+    · subst hzx
+      have hzy : ¬ z = y := hxy
+      simp only [substE, hzy, if_false, if_true]
+      exact (substE_id_of_fresh y b a hac ha).symm
+    · by_cases hzy : z = y
+      · subst hzy
+        simp only [substE, hzx, if_false, if_true]
+        exact substE_id_of_fresh x a b hbc hb
+      · simp [substE, hzx, hzy]
+  | ex z q ih =>
+    by_cases hzx : z = x
+    · subst hzx
+      have hzy : ¬ z = y := hxy
+      simp [substE, hzy]
+    · by_cases hzy : z = y
+      · subst hzy; simp [substE, hzx]
+      · simp [substE, hzx, hzy, ih]
+  | imp l r ihl ihr => simp [substE, ihl, ihr]
+  | app l r ihl ihr => simp [substE, ihl, ihr]
+  | mu Y q ih => simp [substE, ih]
+  | _ => simp [substE]
+
+theorem substS_comm (X Y : VId) (hxy : X ≠ Y) (a b : Pat) (hac : concrete a = true) (hbc : concrete b = true)
+    (ha : a.sFresh Y = true) (hb : b.sFresh X = true) :
+    ∀ p : Pat, substS X a (substS Y b p) = substS Y b (substS X a p) := by
+  intro p; induction p with
+  | svar z =>
+    by_cases hzx : z = X
+    · subst hzx
+      have hzy : ¬ z = Y := hxy
+      simp only [substS, hzy, if_false, if_true]
+      exact (substS_id_of_fresh Y b a hac ha).symm
+    · by_cases hzy : z = Y
+      · subst hzy
+        simp only [substS, hzx, if_false, if_true]
+        exact substS_id_of_fresh X a b hbc hb
+      · simp [substS, hzx, hzy]
+  | mu z q ih =>
+    by_cases hzx : z = X
+    · subst hzx
+      have hzy : ¬ z = Y := hxy
+      simp [substS, hzy]
+    · by_cases hzy : z = Y
+      · subst hzy; simp [substS, hzx]
+      · simp [substS, hzx, hzy, ih]
+  | imp l r ihl ihr => simp [substS, ihl, ihr]
+  | app l r ihl ihr => simp [substS, ihl, ihr]
+  | ex y q ih => simp [substS, ih]
+  | _ => simp [substS]
+
+/-- the side conditions are needed: with the other variable in a plug the order is visible -/
+theorem subst_comm_needs_fresh_plugs :
+    substE 0 (.evar 1) (substE 1 (.sym 5) (.evar 0)) ≠ substE 1 (.sym 5) (substE 0 (.evar 1) (.evar 0)) := by decide
+
+
 end C11
